@@ -94,7 +94,9 @@ def gen_dataset(rng, prof):
     for a in d.nodes:
         for b in d.nodes:
             if a < b and rng.chance(pfp):
-                w = rng.choice([0, 30, 60, 120, 180, 300, 600, rng.randint(1, 900)])
+                # (one footpath in ten is LONGER than the default transfer maximum of 1200 s: usable only by a request that raises the
+                # maximum or sets none -- a loader or table that drops such rows is then visible)
+                w = rng.choice([0, 30, 60, 120, 180, 300, 600, rng.randint(1, 900), rng.randint(1, 900), rng.randint(1201, 2400)])
                 dist = rng.randint(0, 1200)
                 fp[a].append((b, w, dist))
                 if rng.chance(prof.get("pback", 0.8)):
@@ -366,7 +368,7 @@ def gen_params(rng, d, prof, fwd):
     if g:
         minw = rng.choice([0, g, g, 2 * g, 3 * g]) if not prof.get("minws") else minw
     maxtt = rng.choice([MAX_INT, MAX_INT, MAX_INT, 7200, 3600, 1800, rng.randint(300, 5000)])
-    maxtr = rng.choice([1200, 1200, 600, 300, 120, MAX_INT])
+    maxtr = rng.choice([1200, 1200, 600, 300, 120, MAX_INT, MAX_INT, 2400])
     if g:
         maxtt = rng.choice([MAX_INT, MAX_INT, 10 * g, 20 * g, 30 * g, 40 * g, 60 * g])
         maxtr = rng.choice([MAX_INT, g, 2 * g, 5 * g])
